@@ -239,6 +239,15 @@ def o4_o5(prog, rep):
             rep.check(not later, "O5-stale", "%s: fds[%s] is not read again after clearbit may have moved another entry into the slot" % (f2.name, show(idx)), c.where,
                       "read at %s: after the call the slot may hold a different descriptor, so the record handed out (and cleared) would be another descriptor's" % [e.loc for e in later[:2]],
                       function=f2.name, construct="after-clearbit")
+    # the slot just served is looked at again by the next call: clearbit may have moved the last entry into it, and the same
+    # descriptor may have its other direction ready too -- so from a dispatch the function returns without stepping the cursor
+    steps = [e for e in g.all_elems() if ir.step(e) and ir.step(e)[1][0] == "v" and ir.step(e)[1][1] == "fdscanpos"]
+    for c in g.calls("clearbit"):
+        reach = g.reach_from(c.block.id)
+        bad = [m for m in steps if m.block.id in reach or (m.block.id == c.block.id and m.i > c.i)]
+        rep.check(not bad, "O5-stale", "events_network_get: after a dispatch the scan position is kept for the next call (%s)" % c.text[:30], c.where,
+                  "the cursor is stepped at %s after this dispatch: the entry moved into the vacated slot, or the descriptor's other direction, is skipped until the next poll"
+                  % [m.loc for m in bad[:1]], function=g.name, construct="rescan")
     # selection: the scan dispatches only under a set revents bit
     for ld in [e for e in g.all_elems() if e.is_assign and e.op == "=" and fieldname(norm(e.kid(1))) in ("reader", "writer")]:
         fld = fieldname(norm(ld.kid(1)))
